@@ -426,7 +426,7 @@ func resolveLocalFieldLoad(v ssa.Value) ssa.Value { return resolveLocalFieldLoad
 
 var ruleAcceptWrap = &Rule{
 	ID:    "R-ACCEPTWRAP",
-	Doc:   "every use of the assignability test `target.accepts(valueType)` is paired with wrapAny(value, sameTarget) on the accepted edge: a value enters an any-typed (or any-element) slot only wrapped, so the evaluator finds an anyVal with a concrete type where the static type says any",
+	Doc:   "every use of the assignability test `target.accepts(valueType)` is paired with wrapAny(value, sameTarget) on the accepted edge: a value enters an any-typed (or any-element) slot only wrapped, so the evaluator finds an anyVal with a concrete type where the static type says any; the element type combineTypes infers for a literal is applied to every element (wrapAny(e, combined)) on every path to the literal's return",
 	Floor: 3,
 	Run:   runAcceptWrap,
 }
@@ -500,6 +500,16 @@ func runAcceptWrap(c *Ctx, r *Reporter) {
 	for _, fd := range Funcs(pkg) {
 		sf := p.SSAFunc(fd.Obj)
 		if sf == nil || sf == combSSA {
+			continue
+		}
+		// helpers of the type computation itself (combineTypePair(a, b) *Type) have no elements to convert
+		typeLevel := false
+		for res, i := sf.Signature.Results(), 0; i < res.Len(); i++ {
+			if types.Identical(res.At(i).Type(), combSSA.Signature.Results().At(0).Type()) {
+				typeLevel = true
+			}
+		}
+		if typeLevel {
 			continue
 		}
 		n := 0
